@@ -8,6 +8,10 @@ of its clauses have parts that are closed-form code and table agreement; only th
                    logK_T0 - delta_h (298.15 - T) / (ln10 R T 298.15) + A1 + A2 T + A3/T + A4 log10 T + A5/T^2 + A6 T^2
                and its pressure correction  - delta_v 1e-9 (P - Pref) / (ln10 R T).  Locals are inlined from their
                initialisers; the gas constant and ln 10 literals are recognised by value.
+  C01.addlogk  named expressions (-add_logk name coef) are folded into the log K record slot by slot: every accumulation in
+               add_other_logk / add_logks is  target[j] += named[j] * coef  with the SAME slot index on both sides, and the slot
+               ranges cover logK_T0, delta_h, T_A1..T_A6 and delta_v.. (the analytical coefficients replace logK_T0/delta_h only
+               when the named expression has any)
   C01.kcall    unit discipline at every call of k_calc: the temperature argument is a Kelvin quantity (an expression that
                mentions a Celsius quantity - tc, tc_x, Get_tc() - must be that quantity + 273.15) and the pressure argument is
                an atmosphere quantity times 101325 (or the reference 101325 itself)
@@ -123,6 +127,7 @@ def run(P, R, tier):
                     "element totals, charge balance, ionic strength and alkalinity sums (numerical)",
                     "rewriting of reactions to primary/secondary master species; delta_h unit conversion"]
     logk_rule(P, R)
+    addlogk_rule(P, R)
     kcall_rule(P, R)
     slots_rule(P, R)
     si_rule(P, R)
@@ -200,6 +205,62 @@ def logk_rule(P, R):
             R.violation("C01.logk", "k_calc:pressure", "the pressure correction %s is not delta_v 1e-9 (P - Pref)/(ln10 R T)" % T.text(corr[0][4])[:200], line=corr[0][1], **where)
     else:
         R.anchor_missing("C01.logk", "k_calc: local delta_p not found")
+
+
+def addlogk_rule(P, R):
+    R.rule("C01.addlogk", "named log K expressions are added slot by slot: target[j] += named[j] * coef with the same slot on both sides", minimum=5)
+    n = 0
+    for q in ("Phreeqc::add_other_logk", "Phreeqc::add_logks"):
+        f = P.one(q)
+        where = dict(file=f["file"], function=f["q"])
+        for x in T.walk(f["body"]):
+            if x[0] == "Bin" and x[2] in T.ASSIGN_OPS:
+                t = T.strip_casts(x[3])
+                if t[0] != "Index":
+                    continue
+                n += 1
+                inst = "%s@%d" % (q.split("::")[-1], x[1])
+                r = T.strip_casts(x[4])
+                okk = False
+                why = ""
+                if x[2] != "+=":
+                    why = "the slot is overwritten (`%s`), not accumulated" % x[2]
+                elif r[0] == "Bin" and r[2] == "*":
+                    sides = [T.strip_casts(r[3]), T.strip_casts(r[4])]
+                    idx = [s_ for s_ in sides if s_[0] == "Index"]
+                    cf = [s_ for s_ in sides if s_[0] == "Ref" and s_[3] == "coef"]
+                    if len(idx) == 1 and len(cf) == 1:
+                        if T.text(idx[0][3]) == T.text(t[3]):
+                            okk = True
+                        else:
+                            why = "slot %s of the target receives slot %s of the named expression" % (T.text(t[3]), T.text(idx[0][3]))
+                    else:
+                        why = "the added term is not <named slot> * coef"
+                else:
+                    why = "the added term is not <named slot> * coef"
+                if okk:
+                    R.ok("C01.addlogk", inst, "[%s] += named[%s] * coef" % (T.text(t[3]), T.text(t[3])))
+                else:
+                    R.violation("C01.addlogk", inst, "`%s %s %s`: %s" % (T.text(x[3])[:40], x[2], T.text(x[4])[:60], why), line=x[1], **where)
+    # slot ranges of add_other_logk
+    f = P.one("Phreeqc::add_other_logk")
+    rng = []
+    for x in T.walk(f["body"]):
+        if x[0] == "For" and any(w[0] == "Bin" and w[2] == "+=" for w in T.walk(x[5])) and not any(w[0] == "For" for w in T.walk(x[5])):
+            rng.append((T.text(x[2]).replace(" ", ""), T.text(x[3]).replace(" ", "")))
+    single = sorted(T.text(T.strip_casts(x[3])[3]) for x in T.walk(f["body"]) if x[0] == "Bin" and x[2] == "+=" and T.strip_casts(x[3])[0] == "Index" and T.strip_casts(T.strip_casts(x[3])[3])[0] == "Ref"
+                    and T.strip_casts(T.strip_casts(x[3])[3])[2] == "enum")
+    want_rng = [("j=T_A1", "j<=T_A6"), ("j=delta_v", "j<MAX_LOG_K_INDICES")]
+    got = [(a.replace("(int)", ""), b.replace("(int)", "")) for a, b in rng]
+    # MAX_LOG_K_INDICES is an enumerator or macro: accept either spelling by suffix
+    okr = len(got) == 2 and got[0] == want_rng[0] and got[1][0] == want_rng[1][0] and got[1][1].startswith("j<") and single == ["delta_h", "logK_T0"]
+    if okr:
+        R.ok("C01.addlogk", "add_other_logk:coverage", "T_A1..T_A6 (if analytic) else logK_T0 and delta_h; delta_v.. always")
+    else:
+        R.violation("C01.addlogk", "add_other_logk:coverage", "the slots folded in by add_other_logk are no longer {T_A1..T_A6 | logK_T0, delta_h} + delta_v..: loops %s, single slots %s" % (got, single),
+                    file=f["file"], line=f["line"], function=f["q"])
+    if n < 4:
+        R.anchor_missing("C01.addlogk", "only %d slot accumulations found in add_other_logk / add_logks" % n)
 
 
 CELSIUS = ("tc_x", "tc", "Get_tc", "tc1", "tc2")
